@@ -22,7 +22,7 @@ from openpyxl import load_workbook, Workbook
 from openpyxl.cell.cell import Cell, MergedCell
 from openpyxl.formula.translate import Translator
 
-from pycel.excelutil import AddressCell, AddressRange, flatten, is_address
+from pycel.excelutil import AddressCell, AddressRange, is_address
 
 ARRAY_FORMULA_NAME = '=CSE_INDEX'
 ARRAY_FORMULA_FORMAT = '{}(%s,%s,%s,%s,%s)'.format(ARRAY_FORMULA_NAME)
@@ -80,9 +80,11 @@ class _OpxRange(ExcelWrapper.RangeData):
             front, *args = cells[0][0].value[:-1].rsplit(',', 4)
 
             # if this range corresponds to the top left of a CSE Array formula
-            if (args[0] == args[1] == '1') and all(
-                    isinstance(c.value, str) and c.value.startswith(front)
-                    for c in flatten(cells)):
+            # (every cell is the member of that array formula its place says)
+            if all(isinstance(c.value, str) and c.value[:-1].rsplit(',', 4) == [
+                    front, str(row + 1), str(col + 1), *args[2:]]
+                    for row, cells_row in enumerate(cells)
+                    for col, c in enumerate(cells_row)):
                 # apply formula to the range
                 formula = '={%s}' % front[len(ARRAY_FORMULA_NAME) + 1:]
         else:
